@@ -290,6 +290,12 @@ inline std::vector<std::string> readLines(const std::string& p) {
 // Runs fn in a forked child with a watchdog; returns 0 if the child exited 0, otherwise a description in `why`.
 int forkRun(const std::function<int()>& fn, int seconds, std::string& why, size_t memLimitMB = 0);
 
+// Runs cases 0..n-1 sequentially inside forked children (appending to outPath). If a child dies, the case that was
+// running is reported through onCrash(i, why, out) and the run resumes with the next case. Returns the crash count.
+size_t runForkedCases(size_t n, const std::string& outPath, int secondsPerCase,
+					  const std::function<void(size_t, std::string&)>& fn,
+					  const std::function<void(size_t, const std::string&, FILE*)>& onCrash, size_t memLimitMB = 0);
+
 using Cmd = int (*)(int, char**);
 struct Registry {
 	static std::map<std::string, Cmd>& cmds() {
